@@ -88,6 +88,9 @@ pub struct Scenario {
     pub outsiders: Vec<String>,
     pub cfg: Cfg,
     pub root: Node,
+    /// (client, other client): the first uses the Nostr identity of the second (one user, two devices)
+    #[serde(default)]
+    pub same_identity: Vec<(String, String)>,
 }
 
 pub fn act(actor: &str, kind: ActKind, ts: u64) -> Act {
@@ -149,6 +152,7 @@ pub struct World {
     /// welcome rumors published: (wrapper id used, rumor, invitee)
     pub welcomes: Vec<(EventId, UnsignedEvent, String)>,
     pub names_by_pk: BTreeMap<String, String>,
+    pub pks_by_name: BTreeMap<String, String>,
     /// path of the spine leaf (MIP-03 winner at every fork)
     pub spine: Vec<Vec<usize>>,
     /// for every member: the client it starts exploration with
@@ -159,6 +163,9 @@ pub struct World {
     pub secrets: Vec<(String, Vec<u8>)>,
     /// canonical re-offer order: by depth, spine events first, commits by MIP-03 rank
     pub settle_order: Vec<usize>,
+    /// nodes where the roster the implementation produced differs from what the scripted operations name:
+    /// (node path, expected, implementation)
+    pub roster_mismatches: Vec<(Vec<usize>, Vec<String>, Vec<String>)>,
 }
 
 #[derive(Debug)]
@@ -195,8 +202,13 @@ pub fn build_world(sc: &Scenario, backend: Bk) -> Result<World, GenError> {
     let base_ts = now() - 2000;
     let mut all: BTreeMap<String, Client> = BTreeMap::new();
     for n in sc.members.iter().chain(sc.outsiders.iter()) {
-        all.insert(n.clone(), Client::new(n, backend, &sc.cfg));
+        let twin = sc.same_identity.iter().find(|(a, _)| a == n).and_then(|(_, b)| all.get(b).map(|c: &Client| c.keys.clone()));
+        match twin {
+            Some(k) => all.insert(n.clone(), Client::with_keys(n, k, backend, &sc.cfg)),
+            None => all.insert(n.clone(), Client::new(n, backend, &sc.cfg)),
+        };
     }
+    let pks_by_name: BTreeMap<String, String> = all.iter().map(|(n, c)| (n.clone(), c.pk().to_hex())).collect();
     let names_by_pk: BTreeMap<String, String> = all.iter().map(|(n, c)| (c.pk().to_hex(), n.clone())).collect();
     let creator = &sc.members[0];
     let kps: Vec<Event> = sc.members[1..].iter().map(|n| all[n].key_package_event()).collect();
@@ -231,11 +243,13 @@ pub fn build_world(sc: &Scenario, backend: Bk) -> Result<World, GenError> {
         nodes: BTreeMap::new(),
         welcomes,
         names_by_pk,
+        pks_by_name,
         spine: Vec::new(),
         initial: BTreeMap::new(),
         initial_node: BTreeMap::new(),
         secrets: Vec::new(),
         settle_order: Vec::new(),
+        roster_mismatches: Vec::new(),
     };
 
     // root node clients
@@ -246,7 +260,8 @@ pub fn build_world(sc: &Scenario, backend: Bk) -> Result<World, GenError> {
     // outsiders kept aside (used when added)
     let mut outsiders = all;
     let mut msg_counter = 0u64;
-    expand(&mut w, &sc.root, vec![], root_clients, &mut outsiders, &mut msg_counter)?;
+    let expected0: std::collections::BTreeSet<String> = sc.members.iter().cloned().collect();
+    expand(&mut w, &sc.root, vec![], root_clients, &mut outsiders, &mut msg_counter, expected0)?;
 
     // spine
     let mut path: Vec<usize> = vec![];
@@ -267,6 +282,17 @@ pub fn build_world(sc: &Scenario, backend: Bk) -> Result<World, GenError> {
             break;
         }
         w.spine.push(path.clone());
+    }
+    // outsiders that never joined are observers too: a client with an unrelated group of its own
+    let leftover: Vec<String> = outsiders.keys().cloned().collect();
+    for n in leftover {
+        if !w.initial.contains_key(&n) {
+            let c = outsiders.remove(&n).unwrap();
+            let cfgd = NostrGroupConfigData::new("own".into(), "unrelated".into(), None, None, None, vec![relay("wss://own.example")], vec![c.pk()]);
+            let _ = with_mdk!(c, m => m.create_group(&c.pk(), vec![], cfgd));
+            w.initial.insert(n.clone(), c);
+            w.initial_node.insert(n, vec![]);
+        }
     }
     // canonical re-offer order
     let mut order: Vec<usize> = (0..w.pool.len()).collect();
@@ -319,6 +345,7 @@ fn expand(
     mut clients: BTreeMap<String, Client>,
     outsiders: &mut BTreeMap<String, Client>,
     msg_counter: &mut u64,
+    expected: std::collections::BTreeSet<String>,
 ) -> Result<(), GenError> {
     let gid = w.gid.clone();
     // record node info from the reference bystander (last member present), sanity: all agree
@@ -336,7 +363,16 @@ fn expand(
             return Err(GenError(format!("generator: reference clients disagree in node {path:?}: {n} vs {zname}")));
         }
     }
-    let members: Vec<String> = core.members.iter().map(|pk| w.pk_name(pk)).collect();
+    // membership of this node as the scenario text defines it (never read from the implementation)
+    let members: Vec<String> = expected.iter().cloned().collect();
+    let impl_members: Vec<String> = w.pks_by_name.iter().filter(|(_, pk)| core.members.contains(pk)).map(|(n, _)| n.clone()).filter(|n| w.sc.members.contains(n) || w.sc.outsiders.contains(n)).collect();
+    let mut a = members.clone();
+    a.sort();
+    let mut b = impl_members.clone();
+    b.sort();
+    if a != b {
+        w.roster_mismatches.push((path.clone(), a, b));
+    }
 
     // actions: every actor acts on its own client of this node; the client keeps the local effects
     struct Pending {
@@ -369,7 +405,7 @@ fn expand(
             ActKind::Admins(names) => {
                 let mut pks = Vec::new();
                 for n in names {
-                    let pk = w.names_by_pk.iter().find(|(_, v)| *v == n).map(|(k, _)| nostr::PublicKey::from_hex(k).unwrap()).ok_or(GenError(format!("unknown {n}")))?;
+                    let pk = w.pks_by_name.get(n).map(|k| nostr::PublicKey::from_hex(k).unwrap()).ok_or(GenError(format!("unknown {n}")))?;
                     pks.push(pk);
                 }
                 with_mdk!(c, m => m.update_group_data(&gid, NostrGroupDataUpdate::new().admins(pks))).map_err(ge(&label))?.evolution_event
@@ -382,7 +418,7 @@ fn expand(
                 r.evolution_event
             }
             ActKind::Remove(who) => {
-                let pk = w.names_by_pk.iter().find(|(_, v)| *v == who).map(|(k, _)| nostr::PublicKey::from_hex(k).unwrap()).ok_or(GenError(format!("unknown {who}")))?;
+                let pk = w.pks_by_name.get(who).map(|k| nostr::PublicKey::from_hex(k).unwrap()).ok_or(GenError(format!("unknown {who}")))?;
                 with_mdk!(c, m => m.remove_members(&gid, &[pk])).map_err(ge(&label))?.evolution_event
             }
             ActKind::Leave => with_mdk!(c, m => m.leave_group(&gid)).map_err(ge(&label))?.evolution_event,
@@ -496,7 +532,30 @@ fn expand(
         }
         let empty = Node::default();
         let child_node = a.child.as_deref().unwrap_or(&empty);
-        expand(w, child_node, child_path, next, outsiders, msg_counter)?;
+        // what the operation names, by identity: every device of a removed user goes
+        let mut exp_child = expected.clone();
+        let same_user = |x: &str| -> Vec<String> {
+            let pk = w.pks_by_name.get(x).cloned();
+            w.pks_by_name.iter().filter(|(_, p)| Some(*p) == pk.as_ref()).map(|(n, _)| n.clone()).collect()
+        };
+        match &a.kind {
+            ActKind::Add(x) => {
+                exp_child.insert(x.clone());
+            }
+            ActKind::Remove(x) => {
+                for n in same_user(x) {
+                    exp_child.remove(&n);
+                }
+            }
+            ActKind::CommitLeave(label) => {
+                if let Some(pe) = w.pool.iter().find(|p| p.label.ends_with(label.as_str())) {
+                    let who = pe.author.clone();
+                    exp_child.remove(&who);
+                }
+            }
+            _ => {}
+        }
+        expand(w, child_node, child_path, next, outsiders, msg_counter, exp_child)?;
     }
 
     w.nodes.insert(path.clone(), NodeInfo { path, core, members, record, relays, clients });
